@@ -125,6 +125,13 @@ def _case(draw):
     elif kind == "param-source":
         fault = {"kind": "param-source", "task": leaf["name"], "client": client, "ordinal": ordinal,
                  "where": draw(st.sampled_from(["params", "params", "partition"])), "exc": draw(_EXC)}
+        if leaf["mode"] == "iterations" and not leaf.get("completes_parent") and draw(st.booleans()):
+            # the failing source is one that decides itself when the task ends (like the bulk source: neither iterations nor a time period;
+            # the schedule runs until params() raises StopIteration) and fails before it is exhausted
+            leaf.pop("iterations", None)
+            leaf.pop("warmup_iterations", None)
+            leaf.update(mode="time", warmup_time_period=None, time_period=None, source_size=ordinal + draw(st.integers(1, 4)))
+            fault["source_ends_the_task"] = True
     elif kind in ("store-once", "store-persistent"):
         fault = {"kind": "store", "n": draw(st.sampled_from([1, 2, 3, 7, 20, 60])), "persistent": kind == "store-persistent"}
         if draw(st.integers(0, 2)) == 0:
@@ -234,6 +241,8 @@ def run_case(case, obs):
         obs.cls("exception-without-message")
     if fault and fault.get("where") == "partition":
         obs.cls("raised-outside-executor")
+    if fault and fault.get("source_ends_the_task") and fault.get("where") == "params":
+        obs.cls("failing-source-is-the-one-that-ends-the-task")
     # 1. race control is told, as a failure (or cancellation), never success
     if r.outcome == "hang":
         obs.violation("no-notification", f"fault {fault} fired at {r.fired_at:.3f} but race control never got a reply: {r.error}")
